@@ -435,6 +435,13 @@ def check_controller(case, ctx: Ctx):
         # Such documents are outside this sub-check's domain; the graph-level sub-checks still cover them.
         ctx.rec.label("controller:skipped:consumer-before-last-loop-stage")
         return
+    for c in case["cons"]:
+        staged = [case["loop"][u["c"]]["name"] for u in c["uses"] if u["method"] in ("copy", "link")]
+        if len(staged) != len(set(staged)):
+            # two same-named producers (of different stages) copied/linked into one working directory collide on the
+            # destination name - a limit of staging, not of loops (thorough seed 11, second run)
+            ctx.rec.label("controller:skipped:same-named-producers-staged-into-one-directory")
+            return
     run = _Run([case], ctx)
     try:
         lp = run.loops[0]
